@@ -44,6 +44,12 @@ CANARIES = []
 def cases(tier, seed):
     for c in CANARIES:
         yield dict(c)
+    # the targeted collections of the plan audits (division-deriving operators, keyword surface of the front end)
+    from vmon import planaudit
+    from vmon.checks.c06 import TARGET_NAMES
+
+    for name in sorted(TARGET_NAMES) + planaudit.sk_names():
+        yield {"targeted": name}
     n = CONFIG[tier]["programs"]
     profiles = ["default", "default", "projection", "filter", "blockwise", "structure"]
     for i in range(n):
@@ -61,9 +67,68 @@ def get_prog(case):
     return progcase.gen_prog(("C01",) + tuple(case["gen"]), profile=case.get("profile", "default"))
 
 
+def run_targeted(case):
+    """optimized-at-every-stage vs unoptimized execution of one targeted collection (no pandas interpreter: the row order is
+    compared as a multiset; index labels are compared unless the plan contains an operation that leaves them undefined)"""
+    import os
+
+    from dask_expr._expr import optimize_until
+
+    from vmon import planaudit
+
+    name = case["targeted"]
+    tg = planaudit.targeted(os.environ.get("VMON_SCRATCH"))
+    if name not in tg:
+        return {"status": "undecided", "counters": {"unknown_target": 1}}
+    try:
+        q = tg[name]()
+    except Exception as ex:
+        return {"status": "refused", "counters": {"build_refused": 1}, "sets": {"build_refusals": [f"{name}:{type(ex).__name__}"]}}
+    counters = {"targeted_cases": 1}
+    rec = {"status": "ok", "counters": counters, "sets": {}, "nt": []}
+    viol = None
+    with dask.config.set({"dataframe.shuffle.method": "tasks"}):
+        try:
+            with M.Guard():
+                ref = concat_parts(exec_ref(q.expr))
+        except Exception as e:
+            return {"status": "undecided", "counters": {"baseline_raises": 1}, "sets": {"baseline_errors": [f"{name}:{type(e).__name__}"]}}
+        classes = set(progcase.plan_classes(q.expr))
+        index_defined = not (classes & {"Merge", "JoinRecursive", "Shuffle", "ResetIndex", "DropDuplicates", "Unique", "MergeAsof", "Sample"}) and "ignore_index" not in name
+        stage = None
+        try:
+            for stage in STAGES:
+                e = optimize_until(q.expr, stage)
+                with M.Guard():
+                    got = concat_parts(exec_ref(e))
+                counters["stage_comparisons"] = counters.get("stage_comparisons", 0) + 1
+                d = compare(got, ref, order=False, index=index_defined, dtypes=True)
+                if d:
+                    viol = dict(d, oracle="opt_vs_ref", stage=stage, classes=progcase.plan_classes(e))
+                    break
+            if viol is None and hasattr(q, "compute"):
+                stage = "compute"
+                got = q.compute(scheduler="sync")
+                counters["compute_path_compared"] = counters.get("compute_path_compared", 0) + 1
+                d = compare(got, ref, order=False, index=index_defined, dtypes=True)
+                if d:
+                    viol = dict(d, oracle="compute_vs_ref", stage="compute")
+        except Exception as ex:
+            viol = dict(progcase.exc_info(ex), oracle="opt_runs", stage=stage)
+    if viol:
+        viol["ops"] = [name]
+        viol["src"] = [f"targeted:{name}"]
+        rec["status"] = "violation"
+        rec["viol"] = viol
+        rec["case"] = {"targeted": name}
+    return rec
+
+
 def run_case(case):
     from dask_expr._expr import optimize_until
 
+    if "targeted" in case:
+        return run_targeted(case)
     prog = get_prog(case)
     rng = derive_rng("C01run", case.get("gen"), shash(prog))
     method = case.get("shuffle") or rng.choice(["tasks", "disk"])
